@@ -643,6 +643,27 @@ def foreign_schema_stream(ctx):
                 obj.to_astm()
             except Exception:
                 pass
+    # a schema of the site that declares *values* as the default of a component: records built without that component
+    # each have their own; changing one changes neither another record nor what later records start with
+    try:
+        Rec2 = Record.build(F.ConstantField(name="type", default="Y"),
+                            F.ComponentField(Comp, name="cd", default=["abc", "1"]),
+                            F.RepeatedComponentField(Comp, name="rd", default=[["x", "2"]]))
+        a_, b_ = Rec2(), Rec2()
+        ref_ = copy.deepcopy(b_.to_dict())
+        a_.cd.a = "zzz"
+        a_.cd.n = 9
+        if a_._data.get("rd"):
+            a_.rd[0].a = "q"
+            a_.rd.append(["y", "3"])
+        c_ = Rec2()
+        fs.case({"module": "site schema", "letter": "Y", "declared_default": "component values"})
+        if b_.to_dict() != ref_ or c_.to_dict() != ref_:
+            fs.fail({"module": "site schema", "record_b": repr(b_.to_dict())[:200], "new_record": repr(c_.to_dict())[:200], "expected": repr(ref_)[:200]},
+                    "changing the component of one record changed another record / the declared default of a schema that "
+                    "declares component values as default", "foreign/declared-default")
+    except Exception as e:  # noqa
+        fs.case({"module": "site schema", "error": repr(e)[:100]})
     after = snapshot()
     for key in before:
         fs.case({"module": key[0], "letter": key[1], "input": before[key][0]})
